@@ -72,6 +72,13 @@ def gen_chars(rng, n, first_nonspace=False, forbid=b""):
     return pieces
 
 
+def strip_seq(b, seq, repl):
+    """remove every occurrence of a terminator, also those a single replace pass re-creates (']]>>' -> ']]>')"""
+    while seq in b:
+        b = b.replace(seq, repl)
+    return b
+
+
 def gen_tree(rng, depth, maxdepth):
     """element: ('e', name, attrs[(name, raw, decoded, quote)], children, selfclose)"""
     name = gen_name(rng)
@@ -101,13 +108,13 @@ def gen_tree(rng, depth, maxdepth):
                 children.append(("t", b"".join(p[0] for p in pcs), b"".join(p[1] for p in pcs)))
                 last_text = True
             elif r < 0.72:
-                children.append(("c", bytes(rng.choice(b"ab <>&]x") for _ in range(rng.randint(0, 6))).replace(b"]]>", b"]]")))
+                children.append(("c", strip_seq(bytes(rng.choice(b"ab <>&]x") for _ in range(rng.randint(0, 6))), b"]]>", b"]]")))
                 last_text = False
             elif r < 0.84:
-                children.append(("k", bytes(rng.choice(b"ab <>&-x") for _ in range(rng.randint(0, 6))).replace(b"-->", b"--")))
+                children.append(("k", strip_seq(bytes(rng.choice(b"ab <>&-x") for _ in range(rng.randint(0, 6))), b"-->", b"--")))
                 last_text = False
             else:
-                pc = bytes(rng.choice(b" ab=?'\"") for _ in range(rng.randint(0, 6))).replace(b"?>", b"?")
+                pc = strip_seq(bytes(rng.choice(b" ab=?'\"") for _ in range(rng.randint(0, 6))), b"?>", b"?")
                 if pc and pc[:1] not in (b" ", b"?", b"=", b"'", b'"'):
                     pc = b" " + pc
                 children.append(("p", gen_name(rng, 4).replace(b":", b"_"), pc))
